@@ -25,6 +25,10 @@ struct Gen<'a, R: RoleType, T: IsPacketId> {
     force_persist: bool,         // next handshake asks for a persistent session (v5: Session Expiry Interval)
     force_ska: Option<u16>,      // next CONNACK carries this Server Keep Alive
     force_own_rm: Option<u16>,   // the Receive Maximum WE announce in the next CONNECT / CONNACK we send
+    force_peer_mps: Option<u32>, // the Maximum Packet Size the PEER announces in the next handshake
+    force_peer_tam: Option<u16>, // the Topic Alias Maximum the PEER announces in the next handshake
+    boundary: bool,              // publishes are sized around the peer's Maximum Packet Size
+    plain_pub: bool,             // publishes carry no manual alias / extra properties
 }
 
 impl<'a, R: RoleType, T: IsPacketId> Gen<'a, R, T> {
@@ -99,7 +103,7 @@ impl<'a, R: RoleType, T: IsPacketId> Gen<'a, R, T> {
             ps.push(P::U16(34, *self.rng.pick(&[0u16, 1, 2, 3, 10])));
         }
         if self.rng.chance(1, 4) {
-            let v = *self.rng.pick(&[1u32, 2, 3, 4, 5, 6, 8, 12, 20, 30, 50, 100, 100000]);
+            let v = *self.rng.pick(&[1u32, 2, 3, 4, 5, 6, 8, 12, 20, 30, 50, 100, 130, 131, 132, 133, 134, 100000]);
             ps.push(P::U32(39, v));
         }
         if self.force_persist && !for_connack {
@@ -116,6 +120,17 @@ impl<'a, R: RoleType, T: IsPacketId> Gen<'a, R, T> {
         }
         if self.rng.chance(1, 6) {
             ps.push(P::Pair(b"k".to_vec(), b"v".to_vec()));
+        }
+        if for_connack == self.acts_as_client() {
+            // this is the peer's packet
+            if let Some(m) = self.force_peer_mps {
+                ps.retain(|p| !matches!(p, P::U32(39, _)));
+                ps.push(P::U32(39, m));
+            }
+            if let Some(t) = self.force_peer_tam {
+                ps.retain(|p| !matches!(p, P::U16(34, _)));
+                ps.push(P::U16(34, t));
+            }
         }
         // random order
         for i in (1..ps.len()).rev() {
@@ -145,9 +160,7 @@ impl<'a, R: RoleType, T: IsPacketId> Gen<'a, R, T> {
                 let sp = !clean && (force_ok || self.rng.chance(2, 3));
                 let rc = if force_ok || self.rng.chance(9, 10) { 0 } else { *self.rng.pick(&[1u8, 2, 5, 0x80, 0x87]) };
                 let ps = self.conn_props(true);
-                if let Some(P::U32(_, m)) = ps.iter().find(|p| matches!(p, P::U32(39, _))) {
-                    self.peer_mps = Some(*m);
-                }
+                self.peer_mps = ps.iter().find_map(|p| if let P::U32(39, m) = p { Some(*m) } else { None });
                 let b = w_connack(v, sp, rc, &ps);
                 if force_ok {
                     self.op(format!("recv {}", hex(&b)));
@@ -158,9 +171,7 @@ impl<'a, R: RoleType, T: IsPacketId> Gen<'a, R, T> {
         } else {
             let v = self.ver();
             let ps = self.conn_props(false);
-            if let Some(P::U32(_, m)) = ps.iter().find(|p| matches!(p, P::U32(39, _))) {
-                self.peer_mps = Some(*m);
-            }
+            self.peer_mps = ps.iter().find_map(|p| if let P::U32(39, m) = p { Some(*m) } else { None });
             let ka = self.ka();
             let lvl = if !force_ok && self.rng.chance(1, 25) { *self.rng.pick(&[3u8, 6, 0]) } else { v };
             let mut bytes = w_connect(v, clean, ka, b"cid", &ps);
@@ -274,10 +285,33 @@ impl<'a, R: RoleType, T: IsPacketId> Gen<'a, R, T> {
                 _ => {}
             }
         }
-        let ps = self.pub_props(alias);
-        let pl = self.payload();
+        if self.plain_pub {
+            alias = None;
+            if topic.is_empty() {
+                topic = self.rng.pick(&TOPICS).to_vec();
+            }
+        }
+        let ps = if self.plain_pub { vec![] } else { self.pub_props(alias) };
+        let mut pl = self.payload();
         let dup = self.rng.chance(1, 10);
-        let bytes = w_publish(v, self.pw(), qos, dup, self.rng.chance(1, 8), &topic, id, &ps, &pl);
+        let retain = self.rng.chance(1, 8);
+        let mut bytes = w_publish(v, self.pw(), qos, dup, retain, &topic, id, &ps, &pl);
+        if let Some(l) = self.peer_mps {
+            if v == 5 && l <= 400 && (self.boundary || self.rng.chance(1, 3)) {
+                // boundary: total size within a few bytes of the peer's Maximum Packet Size
+                let target = (l as i64 + *self.rng.pick(&[-4i64, -3, -3, -3, -2, -1, 0, 0, 1])).max(0) as usize;
+                let s0 = w_publish(v, self.pw(), qos, dup, retain, &topic, id, &ps, &[]).len();
+                let mut n = target.saturating_sub(s0);
+                loop {
+                    pl = (0..n).map(|i| (i as u8).wrapping_mul(7)).collect();
+                    bytes = w_publish(v, self.pw(), qos, dup, retain, &topic, id, &ps, &pl);
+                    if bytes.len() <= target || n == 0 {
+                        break;
+                    }
+                    n -= 1;
+                }
+            }
+        }
         self.my_ids.retain(|x| *x != id);
         self.op(format!("send {} {}", v, hex(&bytes)));
         if qos > 0 {
@@ -328,7 +362,12 @@ impl<'a, R: RoleType, T: IsPacketId> Gen<'a, R, T> {
                 self.rel_wait.push(id);
             } else if self.rng.chance(3, 4) && (!self.legal || (qos == 2 && pick_inflight && self.pubrec_delivered(id) && self.pubrec_done(id))) {
                 // manual PUBREL
-                let b = w_ack(v, pw, 6, id, None, None);
+                let b = if v == 5 && self.rng.chance(1, 3) {
+                    let n = *self.rng.pick(&[1usize, 10, 40]);
+                    w_ack(v, pw, 6, id, Some(0), Some(&[P::Pair(b"k".to_vec(), vec![b'v'; n])]))
+                } else {
+                    w_ack(v, pw, 6, id, None, None)
+                };
                 self.op(format!("send {} {}", v, hex(&b)));
                 self.rel_wait.push(id);
             }
@@ -349,8 +388,14 @@ impl<'a, R: RoleType, T: IsPacketId> Gen<'a, R, T> {
 
     fn peer_publish(&mut self) {
         let v = self.ver();
-        let qos = self.rng.below(3) as u8;
-        let id = *self.rng.pick(&[1u64, 1, 2, 3, 0, self.idmax()]);
+        let mut qos = self.rng.below(3) as u8;
+        let mut id = *self.rng.pick(&[1u64, 1, 2, 3, 0, self.idmax()]);
+        if !self.peer_pubs.is_empty() && self.rng.chance(1, 4) {
+            // retransmission of an earlier QoS>0 PUBLISH of the peer
+            let (i, q) = self.peer_pubs[self.rng.below(self.peer_pubs.len() as u64) as usize];
+            id = i;
+            qos = q;
+        }
         let mut topic: Vec<u8> = self.rng.pick(&TOPICS).to_vec();
         let mut alias = None;
         if v == 5 {
@@ -387,11 +432,15 @@ impl<'a, R: RoleType, T: IsPacketId> Gen<'a, R, T> {
             (*self.rng.pick(&[1u64, 2, 3, 9]), 1 + self.rng.below(2) as u8)
         };
         let nib = if qos == 1 { 4 } else { *self.rng.pick(&[5u8, 5, 7]) };
-        let rc = if v == 5 && self.rng.chance(1, 3) { Some(*self.rng.pick(&[0u8, 0x10, 0x80, 0x87, 0x92])) } else { None };
+        let rc = if v == 5 && self.rng.chance(1, 3) { Some(*self.rng.pick(&[0u8, 0x10, 0x10, 0x80, 0x87, 0x92])) } else { None };
         let bytes = w_ack(v, pw, nib, id, rc, None);
         self.op(format!("send {} {}", v, hex(&bytes)));
         if nib != 5 {
             self.peer_pubs.retain(|x| x.0 != id);
+        } else if self.rng.chance(1, 3) {
+            // the peer retransmits the PUBLISH (our PUBREC was lost on the way)
+            let b = w_publish(v, pw, 2, true, false, b"a", id, &[], b"m");
+            self.recv(b);
         }
     }
 
@@ -750,6 +799,10 @@ fn walk<R: RoleType, T: IsPacketId>(role: &'static str, ver: u8, steps: usize, r
         force_persist: false,
         force_ska: None,
         force_own_rm: None,
+        force_peer_mps: None,
+        force_peer_tam: None,
+        boundary: false,
+        plain_pub: false,
     };
     // options
     for f in ["off", "apr", "aping", "amap", "arep"] {
@@ -792,8 +845,185 @@ fn walk<R: RoleType, T: IsPacketId>(role: &'static str, ver: u8, steps: usize, r
             g.op("closed".into());
             g.handshake();
             g.op(format!("recv {}", hex(&w_publish(5, pw, 2, true, false, b"a", 1, &[], b"m1"))));
+            let q = 1 + g.rng.below(2) as u8;
             for i in 0..rm as u64 {
-                g.op(format!("recv {}", hex(&w_publish(5, pw, 1, false, false, b"b", 2 + i, &[], b"m2"))));
+                g.op(format!("recv {}", hex(&w_publish(5, pw, q, false, false, b"b", 2 + i, &[], b"m2"))));
+            }
+            if g.rng.chance(1, 2) {
+                // the over-quota PUBLISH ended the connection; resume once more and let the peer
+                // retransmit what it still holds
+                if g.status() != "D" {
+                    g.op("closed".into());
+                }
+                g.handshake();
+                if g.status() == "C" {
+                    let i = g.rng.below(rm as u64);
+                    g.op(format!("recv {}", hex(&w_publish(5, pw, q, true, false, b"b", 2 + i, &[], b"m2"))));
+                }
+            }
+        }
+        g.force_ok = false;
+        g.force_persist = false;
+        g.force_clean = None;
+        g.force_own_rm = None;
+    }
+    if g.legal && g.s.version() == 5 && g.rng.chance(1, 6) {
+        // directed: automatic alias mapping at the Maximum Packet Size boundary (sizes where the
+        // 3-byte alias property pushes the remaining length over a variable-byte-integer step)
+        g.op("set amap 1".into());
+        g.force_ok = true;
+        g.force_peer_mps = Some(*g.rng.pick(&[64u32, 100, 129, 130, 131, 132, 133, 134]));
+        g.force_peer_tam = Some(*g.rng.pick(&[1u16, 2, 3]));
+        g.handshake();
+        g.force_ok = false;
+        g.force_peer_mps = None;
+        g.force_peer_tam = None;
+        g.boundary = true;
+        g.plain_pub = true;
+        for _ in 0..6 {
+            g.send_publish();
+            if g.rng.chance(1, 2) {
+                g.boundary = !g.boundary;
+            }
+        }
+        g.boundary = false;
+        g.plain_pub = false;
+    }
+    if g.legal && g.s.version() == 5 && g.rng.chance(1, 6) {
+        // directed: alias table churn over two topics and two aliases (announce, re-announce the
+        // same binding, rebind, alias-only, plain publishes that automatic replacement may rewrite)
+        for f in ["arep", "amap"] {
+            let on = g.rng.chance(1, 2) as u8;
+            g.op(format!("set {f} {on}"));
+        }
+        g.force_ok = true;
+        g.force_peer_tam = Some(*g.rng.pick(&[1u16, 2, 2, 3]));
+        g.handshake();
+        g.force_ok = false;
+        g.force_peer_tam = None;
+        let pw = g.pw();
+        let ts: [&[u8]; 2] = [b"a", b"b"];
+        let mut bound: Vec<(u16, usize)> = vec![];
+        for _ in 0..10 {
+            if g.status() != "C" {
+                break;
+            }
+            let choice = g.rng.below(6);
+            let (topic, alias): (Vec<u8>, Option<u16>) = match choice {
+                0 | 1 if !bound.is_empty() => {
+                    // re-announce an existing binding
+                    let (a, t) = bound[g.rng.below(bound.len() as u64) as usize];
+                    (ts[t].to_vec(), Some(a))
+                }
+                2 if !bound.is_empty() => {
+                    // rebind an alias in use to the other topic
+                    let (a, t) = bound[g.rng.below(bound.len() as u64) as usize];
+                    (ts[1 - t].to_vec(), Some(a))
+                }
+                3 if !bound.is_empty() => {
+                    let (a, _) = bound[g.rng.below(bound.len() as u64) as usize];
+                    (vec![], Some(a))
+                }
+                4 | 5 => (ts[g.rng.below(2) as usize].to_vec(), None),
+                _ => (ts[g.rng.below(2) as usize].to_vec(), Some(*g.rng.pick(&[1u16, 2]))),
+            };
+            if let (Some(a), false) = (alias, topic.is_empty()) {
+                let t = if topic == ts[0] { 0 } else { 1 };
+                bound.retain(|x| x.0 != a);
+                bound.push((a, t));
+            }
+            let ps: Vec<P> = alias.map(|a| vec![P::U16(35, a)]).unwrap_or_default();
+            g.op(format!("send 5 {}", hex(&w_publish(5, pw, 0, false, false, &topic, 0, &ps, b"x"))));
+        }
+    }
+    if g.legal && g.s.version() == 5 && g.rng.chance(1, 6) {
+        // directed: a persistent session is resumed under a smaller Maximum Packet Size than the
+        // one its stored packets (PUBLISH of several sizes, PUBREL with properties) were accepted under
+        let pw = g.pw();
+        g.op("set apr 0".into());
+        g.force_ok = true;
+        g.force_persist = true;
+        g.force_clean = Some(g.rng.chance(1, 2));
+        g.handshake();
+        if g.status() == "C" {
+            let mut sizes = vec![];
+            for (i, n) in [0usize, 20, 45].iter().enumerate() {
+                let id = g.fresh_id();
+                let qos = 1 + (i as u8 % 2);
+                let b = w_publish(5, pw, qos, false, false, b"a", id, &[], &vec![7u8; *n]);
+                sizes.push(b.len() as u32);
+                g.op(format!("send 5 {}", hex(&b)));
+                g.after_send(id);
+                if qos == 2 && g.rng.chance(2, 3) {
+                    g.op(format!("recv {}", hex(&w_ack(5, pw, 5, id, None, None))));
+                    if g.pubrec_delivered(id) && g.pubrec_done(id) {
+                        let n = *g.rng.pick(&[1usize, 10, 40]);
+                        let b = w_ack(5, pw, 6, id, Some(0), Some(&[P::Pair(b"k".to_vec(), vec![b'v'; n])]));
+                        sizes.push(b.len() as u32);
+                        g.op(format!("send 5 {}", hex(&b)));
+                    }
+                }
+            }
+            g.op("closed".into());
+            g.my_ids.clear();
+            let base = *g.rng.pick(&sizes);
+            g.force_peer_mps = Some((base as i64 + *g.rng.pick(&[-1i64, 0, 1])).max(1) as u32);
+            g.force_clean = Some(false);
+            g.handshake();
+            g.force_peer_mps = None;
+        }
+        g.inflight.clear();
+        g.force_ok = false;
+        g.force_persist = false;
+        g.force_clean = None;
+    }
+    if g.legal && g.rng.chance(1, 6) {
+        // directed: inbound QoS 2 exchanges over two identifiers: PUBLISH and retransmissions,
+        // PUBREC with success / NoMatchingSubscribers / error codes, PUBREL, PUBCOMP, connection
+        // loss and resumption
+        let v = g.ver();
+        let pw = g.pw();
+        g.force_ok = true;
+        g.force_persist = g.rng.chance(2, 3);
+        g.force_clean = Some(g.rng.chance(1, 2));
+        g.force_own_rm = Some(*g.rng.pick(&[2u16, 10]));
+        g.handshake();
+        g.force_clean = Some(false);
+        let mut released: Vec<u64> = vec![];
+        for _ in 0..14 {
+            if g.status() != "C" {
+                if g.rng.chance(2, 3) {
+                    g.handshake();
+                    continue;
+                }
+                break;
+            }
+            let id = *g.rng.pick(&[1u64, 2]);
+            match g.rng.below(7) {
+                0 | 1 | 2 => {
+                    let dup = g.rng.chance(1, 2);
+                    let t: &[u8] = *g.rng.pick(&[b"a" as &[u8], b"b"]);
+                    g.op(format!("recv {}", hex(&w_publish(v, pw, 2, dup, false, t, id, &[], b"q2"))));
+                }
+                3 => {
+                    let rc = if v == 5 { *g.rng.pick(&[None, Some(0u8), Some(0x10), Some(0x10), Some(0x80), Some(0x97)]) } else { None };
+                    g.op(format!("send {} {}", v, hex(&w_ack(v, pw, 5, id, rc, None))));
+                }
+                4 => {
+                    g.op(format!("recv {}", hex(&w_ack(v, pw, 6, id, None, None))));
+                    released.push(id);
+                }
+                5 => {
+                    if released.contains(&id) && g.s.field("apr") != "1" {
+                        g.op(format!("send {} {}", v, hex(&w_ack(v, pw, 7, id, None, None))));
+                        released.retain(|x| *x != id);
+                    }
+                }
+                _ => {
+                    if g.rng.chance(1, 2) {
+                        g.op("closed".into());
+                    }
+                }
             }
         }
         g.force_ok = false;
@@ -851,7 +1081,7 @@ fn reuse_trial<R: RoleType, T: IsPacketId>(role: &'static str, ver: u8, steps: u
     let focus = rng.below(6) as u8;
     let mut g = Gen::<R, T> {
         s: Sess::new(ver), rng, role, my_ids: vec![], inflight: vec![], rel_wait: vec![], peer_pubs: vec![], subs: vec![],
-        peer_mps: None, focus, legal: true, started: false, force_clean: None, force_ok: false, force_persist: false, force_ska: None, force_own_rm: None,
+        peer_mps: None, focus, legal: true, started: false, force_clean: None, force_ok: false, force_persist: false, force_ska: None, force_own_rm: None, force_peer_mps: None, force_peer_tam: None, boundary: false, plain_pub: false,
     };
     for f in ["off", "apr", "aping", "amap", "arep"] {
         if g.rng.chance(2, 5) {
@@ -976,7 +1206,7 @@ fn reuse_trial<R: RoleType, T: IsPacketId>(role: &'static str, ver: u8, steps: u
 fn restore_trial<R: RoleType, T: IsPacketId>(role: &'static str, ver: u8, steps: usize, rng: &mut Rng, name: &str, out: &mut dyn Write) -> bool {
     let mut g = Gen::<R, T> {
         s: Sess::new(ver), rng, role, my_ids: vec![], inflight: vec![], rel_wait: vec![], peer_pubs: vec![], subs: vec![],
-        peer_mps: None, focus: 1, legal: true, started: false, force_clean: None, force_ok: false, force_persist: false, force_ska: None, force_own_rm: None,
+        peer_mps: None, focus: 1, legal: true, started: false, force_clean: None, force_ok: false, force_persist: false, force_ska: None, force_own_rm: None, force_peer_mps: None, force_peer_tam: None, boundary: false, plain_pub: false,
     };
     g.op("set apr 1".into());
     for f in ["off", "aping", "amap", "arep"] {
